@@ -76,4 +76,12 @@ theorem C14_deviate_node (d : Dev) (a : A) (hk : d.kind ≠ .notSupported) :
     simp only [devNode, editNode, hkind]
     by_cases h1 : d.prop = .dflt <;> by_cases h2 : getProp a d.prop = some d.val <;> simp_all
 
+/-- `deviate not-supported` is carried out (the node is marked, and `C14_not_supported` removes it) iff it is the
+    only deviate statement of its deviation; next to other deviate statements it is refused -/
+theorem C14_deviate_not_supported (d : Dev) (a : A) (hk : d.kind = .notSupported) :
+    ((∃ a', devNode d a = .ok a') ↔ editNode d a = some none) ∧
+    (d.alone = false → devNode d a = .error "No other deviate statements allowed with not-supported") := by
+  simp only [devNode, editNode, hk]
+  cases d.alone <;> simp [pure, Except.pure]
+
 end YV.Props.C14
